@@ -62,10 +62,10 @@ def hfun(hs):
     return hashlib.sha1 if hs == 20 else hashlib.sha256
 
 
-def words(data):
-    """bytes as a Coq list of numerals, 15 bytes each below a leading 1 (Model/IndexFile.bytes_of_words): numerals parse much
-    faster than string literals"""
-    return "(" + coq_list(["0x1" + data[i:i + 15].hex() for i in range(0, len(data), 15)]) + "%N)"
+def chunks(data):
+    """bytes as a Coq list of hex string literals (Model/IndexFile.unhex_chunks)"""
+    h = data.hex()
+    return "(" + coq_list(['"%s"' % h[k:k + 2000] for k in range(0, len(h), 2000)]) + "%string)"
 
 
 def short(text):
@@ -855,27 +855,35 @@ def coq_entry(e):
 
 
 def eval_s(ctx, items, tag="s"):
-    """S = Spec/GitIndex.v on byte strings.  items: [(key, data, hs)] -> {key: [normal read, fsck status, read with
-    index.threads=2, read_eoie_extension, re-encoding] (parsed) or None}.  The bytes of a case are a Coq definition shared by its
-    five evaluations; one coqc per 12 cases, in parallel"""
-    groups = [items[i:i + 12] for i in range(0, len(items), 12)]
+    """S = Spec/GitIndex.v on byte strings.  items: [(key, data, hs, modes)] with modes a subset of "ft" (fsck read, read
+    with index.threads=2) -> {key: [normal read, fsck status, threaded read, read_eoie_extension, re-encoding] (parsed; None
+    for a mode not asked for) or None}.  The bytes of a case are a Coq definition shared by its evaluations; one coqc per
+    26 cases, in parallel"""
+    groups = [items[i:i + 26] for i in range(0, len(items), 26)]
 
     def run(gi):
-        defs, exprs = [S_IMPORTS], []
-        for k, (_, d, hs) in enumerate(groups[gi]):
-            defs.append("Definition d%d : bytes := Eval vm_compute in (bytes_of_words %s)." % (k, words(d)))
+        defs, exprs, slots = [S_IMPORTS], [], []
+        for k, (_, d, hs, modes) in enumerate(groups[gi]):
+            defs.append("Definition d%d : bytes := Eval vm_compute in (unhex_chunks %s)." % (k, chunks(d)))
             defs.append("Definition t%d : list (N * N * string) := %s." % (k, hash_table(d, hs)))
             a = "%s t%d" % (coq_N(hs), k)
-            exprs += ["c12_git_normal %s d%d" % (a, k), "c12_git_fsck %s d%d" % (a, k), "c12_git_threads %s d%d" % (a, k),
-                      "c12_git_eoie %s d%d" % (a, k), "c12_git_reenc %s %s d%d" % (a, coq_bool(has_eoie(d, hs)), k)]
-        return core.coq_eval("%s%s%d" % (ctx.pid, tag, gi), "\n".join(defs), exprs, chunk=len(exprs))
+            for j, e in enumerate(["c12_git_normal %s d%d" % (a, k), "c12_git_fsck %s d%d" % (a, k), "c12_git_threads %s d%d" % (a, k),
+                                   "c12_git_eoie %s d%d" % (a, k), "c12_git_reenc %s %s d%d" % (a, coq_bool(has_eoie(d, hs)), k)]):
+                if (j == 1 and "f" not in modes) or (j == 2 and "t" not in modes):
+                    continue
+                exprs.append(e)
+                slots.append((k, j))
+        outs = core.coq_eval("%s%s%d" % (ctx.pid, tag, gi), "\n".join(defs), exprs, chunk=len(exprs))
+        res = [[None] * 5 for _ in groups[gi]]
+        for (k, j), o in zip(slots, outs):
+            res[k][j] = parse_out(o) if o is not None else "FAILED"
+        return res
 
     res = {}
     with ThreadPoolExecutor(max_workers=8) as ex:
         for g, outs in zip(groups, ex.map(run, range(len(groups)))):
-            for k, (key_, _, _) in enumerate(g):
-                o = outs[5 * k:5 * k + 5]
-                res[key_] = [parse_out(x) for x in o] if all(x is not None for x in o) else None
+            for (key_, _, _, _), o in zip(g, outs):
+                res[key_] = None if "FAILED" in o else o
     return res
 
 
@@ -885,16 +893,16 @@ class Dec(Suite):
     coq_imports = "From GoGit Require Import Model.IndexFile."
     quick_n = 100
     thorough_n = 600
-    coq_chunk = 20
+    coq_chunk = 34
 
     def gen(self, rng, n, tier):
         cases = git_cases(rng, max(4, n // 20))
-        cases += synth_cases(rng, n // 3, big=max(2, n // 50))
+        cases += synth_cases(rng, n // 3, big=max(1, n // 80))
         cases += eoie_cases(rng, max(6, n // 8))
         return cases
 
     def model_expr(self, c):
-        return 'c12_decw %s %s %s %s' % (coq_N(c["hs"]), coq_bool(c["skiphash"]), coq_list(['"%s"' % s for s in c["sums"]]), words(bytes.fromhex(c["data"])))
+        return 'c12_decs %s %s %s %s' % (coq_N(c["hs"]), coq_bool(c["skiphash"]), coq_list(['"%s"' % s for s in c["sums"]]), chunks(bytes.fromhex(c["data"])))
 
     def nontrivial(self, c):
         return len(c["data"]) > 24
@@ -906,7 +914,18 @@ class Dec(Suite):
         fails = {}
         gr = GitReader(ctx.tmp)
         stats = {"git_accepts": 0, "git_rejects": 0, "tree_vs_S": 0, "eoie_vs_S": 0}
-        self.S = eval_s(ctx, [(c["id"], bytes.fromhex(c["data"]), c["hs"]) for c in cases])
+        # which cases also get S's fsck read / threaded read (compared with the binary in cgit)
+        self.modes, nf, nt = {}, 0, 0
+        for c in cases:
+            m = ""
+            if nf < 25 or c["bucket"] in ("synth-order", "synth-badsum", "git-skiphash"):
+                nf += 1
+                m += "f"
+            if c.get("threads") or (nt < 12 and "454f4945" in c["data"]):
+                nt += 1
+                m += "t"
+            self.modes[c["id"]] = m
+        self.S = eval_s(ctx, [(c["id"], bytes.fromhex(c["data"]), c["hs"], self.modes[c["id"]]) for c in cases])
         self.G = {}
         for c in cases:
             r = impl.get(c["id"])
@@ -989,7 +1008,6 @@ class Dec(Suite):
             nonlocal bad
             bad += 1
             ctx.notes.append("spec_mismatch S vs git on %s case %s (%s): %s" % (c["bucket"], c["id"], c.get("note", ""), what))
-        nf = nt = 0
         for c in cases:
             s = self.S.get(c["id"])
             if c["id"] not in self.G:
@@ -1014,16 +1032,14 @@ class Dec(Suite):
             if g is None:
                 continue
             # 2. fsck: checksum and order
-            if nf < 25 or c["bucket"] in ("synth-order", "synth-badsum", "git-skiphash"):
-                nf += 1
+            if s[1] is not None:
                 want = "ok" if s[1] == "ok" else s_err(s[1])
                 got = gr.fsck(data, hs)
                 st["s_vs_git_fsck"] += 1
                 if want not in UNDEF and got != want:
                     mism(c, "fsck: S %s / git %s" % (want, got))
             # 3. index.threads=2: extensions loaded from the EOIE offset
-            if c.get("threads") or (nt < 12 and b"EOIE" in data):
-                nt += 1
+            if s[2] is not None:
                 gt = gr.read(data, hs, threads=2)
                 why = compare_s_git(s[2], gt)
                 if why != "undef":
@@ -1173,7 +1189,7 @@ class Enc(Suite):
 
     def extra(self, ctx, cases, impl, model):
         """C-git on the files go-git wrote: S reads them as the binary does"""
-        items = [(i, d, hs) for i, (d, g, hs) in sorted(self.files.items())]
+        items = [(i, d, hs, "") for i, (d, g, hs) in sorted(self.files.items())]
         S = eval_s(ctx, items)
         bad = n = 0
         for i, (d, g, hs) in self.files.items():
